@@ -23,8 +23,8 @@ func signatureRedirectVerificationNecessary(
 		spMeta := spMetadataF()
 		idpMeta := idpMetadataF()
 
-		return ((spMeta == nil || spMeta.SPSSODescriptor == nil || spMeta.SPSSODescriptor.AuthnRequestsSigned == "true") ||
-			(idpMeta == nil || idpMeta.WantAuthnRequestsSigned == "true") ||
+		return ((spMeta == nil || spMeta.SPSSODescriptor == nil || isTrue(spMeta.SPSSODescriptor.AuthnRequestsSigned)) ||
+			(idpMeta == nil || isTrue(idpMeta.WantAuthnRequestsSigned)) ||
 			signatureF() != "") &&
 			protocolBinding() == RedirectBinding
 	}
